@@ -60,14 +60,29 @@ pub enum CtKind {
     WithParams,
     Other,
     Missing,
+    /// a proper, non-empty prefix of the media type (`application`, `application/`, `text/pl`): not that media type
+    Prefix(u8),
 }
 
 #[derive(Debug, Clone, Serialize, Deserialize)]
 pub enum Case {
     /// integer parameter of type INT_TYPES[ty] in first (`/p/<ty>/:v`) or second (`/q/<ty>/:a/:v`) position
-    Int { ty: u8, second: bool, segment: String },
+    Int {
+        ty: u8,
+        second: bool,
+        segment: String,
+        /// (first position only) the route captures a second segment that the handler does not take: `/r/<ty>/:v/:b`
+        #[serde(default)]
+        extra: bool,
+    },
     /// string-like parameter: 0 String, 1 Cow<str>, 2 &str
-    Str { kind: u8, second: bool, segment: String },
+    Str {
+        kind: u8,
+        second: bool,
+        segment: String,
+        #[serde(default)]
+        extra: bool,
+    },
     /// `/x/<route>`: 0 query, 1 json, 2 optjson, 3 form, 4 multipart, 5 text, 6 combo (param + query + json), 7 combo4 (query + opt json + opt form + text?)
     Extract { route: u8, query: Option<Q>, raw_query: Option<String>, body: BodyKind, ct: CtKind, param: String },
 }
@@ -85,6 +100,8 @@ macro_rules! int_routes {
             let second = crate::harness::app::leak(format!("/q/{}/:a/:v", stringify!($t)));
             ohkami::__verif__::Routing::<()>::apply(first.GET(|v: $t| async move { ran(stringify!($t), vec![v.to_string()]); "ok" }), &mut $o);
             ohkami::__verif__::Routing::<()>::apply(second.GET(|(a, v): (String, $t)| async move { ran(stringify!($t), vec![a, v.to_string()]); "ok" }), &mut $o);
+            let fewer = crate::harness::app::leak(format!("/r/{}/:v/:b", stringify!($t)));
+            ohkami::__verif__::Routing::<()>::apply(fewer.GET(|v: $t| async move { ran(stringify!($t), vec![v.to_string()]); "ok" }), &mut $o);
         )*
     }};
 }
@@ -100,6 +117,9 @@ fn build() -> VerifRouter {
     Routing::<()>::apply("/p/string/:v".GET(|v: String| async move { ran("string", vec![v]); "ok" }), &mut o);
     Routing::<()>::apply("/p/cow/:v".GET(|v: Cow<'static, str>| async move { ran("cow", vec![v.into_owned()]); "ok" }), &mut o);
     Routing::<()>::apply("/p/str/:v".GET(|v: &'static str| async move { ran("str", vec![v.to_string()]); "ok" }), &mut o);
+    Routing::<()>::apply("/r/string/:v/:b".GET(|v: String| async move { ran("string", vec![v]); "ok" }), &mut o);
+    Routing::<()>::apply("/r/cow/:v/:b".GET(|(v,): (Cow<'static, str>,)| async move { ran("cow", vec![v.into_owned()]); "ok" }), &mut o);
+    Routing::<()>::apply("/r/str/:v/:b".GET(|v: &'static str| async move { ran("str", vec![v.to_string()]); "ok" }), &mut o);
     Routing::<()>::apply("/q/string/:a/:v".GET(|(a, v): (String, String)| async move { ran("string", vec![a, v]); "ok" }), &mut o);
     Routing::<()>::apply("/q/cow/:a/:v".GET(|(a, v): (String, Cow<'static, str>)| async move { ran("cow", vec![a, v.into_owned()]); "ok" }), &mut o);
     Routing::<()>::apply("/q/str/:a/:v".GET(|(a, v): (String, &'static str)| async move { ran("str", vec![a, v.to_string()]); "ok" }), &mut o);
@@ -199,6 +219,7 @@ fn content_type(kind: &CtKind, mime: &str) -> Option<String> {
         CtKind::WithParams => Some(if mime == "multipart/form-data" { format!("{mime}; boundary={BOUNDARY}") } else { format!("{mime}; charset=utf-8") }),
         CtKind::Other => Some("application/octet-stream".to_string()),
         CtKind::Missing => None,
+        CtKind::Prefix(k) => Some(mime[..1 + *k as usize % (mime.len() - 1)].to_string()),
     }
 }
 
@@ -306,7 +327,7 @@ fn segment_ok(s: &str) -> bool {
 impl Property for C07 {
     type Case = Case;
     const ID: &'static str = "C07";
-    const RULE: &'static str = "generated: requests against a compiled catalogue of 46 handler signatures — every built-in param type (String, Cow<str>, &str, the ten integer types) in first and second position, Query/JSON/Option<JSON>/URLEncoded/Multipart/Text extractors alone and in combinations of 3 and 4 items. Param segments from a grammar (digit strings of 1–25 digits, leading zeros, signs, digits with garbage head or tail, MIN−1/MIN/MAX/MAX+1 of every width, 1e3, 0x10, full-width digits, percent-encoded digits/signs/UTF-8, %FF, trailing %); bodies = a generated value encoded by a reference encoder of its format, valid or corrupted (truncated, missing field, wrong type), with exact / parameterised / other / missing Content-Type. Oracle: Rust FromStr on the canonical integer grammar after percent-decoding; value equality for strings/bodies; invalid or missing ⇒ status ≥ 400 and the handler did not run; Option is None iff the Content-Type is absent/other or there is no payload. Non-trivial = an integer segment that is not a plain in-range literal, an encoded segment, or a body case other than valid + exact type; distinct by case.";
+    const RULE: &'static str = "generated: requests against a compiled catalogue of 59 handler signatures — every built-in param type (String, Cow<str>, &str, the ten integer types) in first and second position and as the only parameter of a route that captures two, Query/JSON/Option<JSON>/URLEncoded/Multipart/Text extractors alone and in combinations of 3 and 4 items. Param segments from a grammar (digit strings of 1–25 digits, leading zeros, signs, digits with garbage head or tail, MIN−1/MIN/MAX/MAX+1 of every width, 1e3, 0x10, full-width digits, percent-encoded digits/signs/UTF-8, %FF, trailing %); bodies = a generated value encoded by a reference encoder of its format, valid or corrupted (truncated, missing field, wrong type), with exact / parameterised / other / missing Content-Type or a proper prefix of the media type. Oracle: Rust FromStr on the canonical integer grammar after percent-decoding; value equality for strings/bodies; invalid or missing ⇒ status ≥ 400 and the handler did not run; Option is None iff the Content-Type is absent/other or there is no payload. Non-trivial = an integer segment that is not a plain in-range literal, an encoded segment, or a body case other than valid + exact type; distinct by case.";
     const ASSUMPTIONS: &'static [&'static str] = &[
         "`+5` as an integer parameter may be accepted or refused",
         "media types are matched as the framework documents (prefix of the Content-Type value); case variants of media types are not generated",
@@ -317,7 +338,7 @@ impl Property for C07 {
         C07 { router: build() }
     }
     fn n_cases(&self, tier: Tier) -> u64 {
-        tier.pick(400_000, 8_000_000)
+        tier.pick(1_600_000, 8_000_000)
     }
     fn chunk(&self, _tier: Tier) -> u64 {
         10_000
@@ -339,11 +360,11 @@ impl Property for C07 {
             2 => "\\PC{0,40}".prop_map(BodyKind::Text),
             1 => Just(BodyKind::TextInvalidUtf8),
         ];
-        let ct = prop_oneof![5 => Just(CtKind::Exact), 2 => Just(CtKind::WithParams), 1 => Just(CtKind::Other), 1 => Just(CtKind::Missing)];
+        let ct = prop_oneof![5 => Just(CtKind::Exact), 2 => Just(CtKind::WithParams), 1 => Just(CtKind::Other), 1 => Just(CtKind::Missing), 1 => any::<u8>().prop_map(CtKind::Prefix)];
         let raw_query = prop::option::weighted(0.2, prop_oneof![Just("n=5".to_string()), Just("a=x&n=abc".to_string()), Just("a=x&n=4294967296".to_string()), Just("a".to_string()), Just("a=1&a=2".to_string())]);
         prop_oneof![
-            4 => (0u8..10, any::<bool>(), int_segment()).prop_map(|(ty, second, segment)| Case::Int { ty, second, segment }),
-            2 => (0u8..3, any::<bool>(), str_segment()).prop_map(|(kind, second, segment)| Case::Str { kind, second, segment }),
+            4 => (0u8..10, any::<bool>(), int_segment(), prop::bool::weighted(0.3)).prop_map(|(ty, second, segment, extra)| Case::Int { ty, second, segment, extra }),
+            2 => (0u8..3, any::<bool>(), str_segment(), prop::bool::weighted(0.3)).prop_map(|(kind, second, segment, extra)| Case::Str { kind, second, segment, extra }),
             4 => (0u8..8, prop::option::weighted(0.8, q_strategy()), raw_query, body, ct, int_segment()).prop_map(|(route, query, raw_query, body, ct, param)| Case::Extract { route, query, raw_query, body, ct, param }),
         ]
         .boxed()
@@ -359,9 +380,13 @@ impl Property for C07 {
             drive::request(&self.router, method, target, headers, body)
         };
         match case {
-            Case::Int { ty, second, segment } => {
+            Case::Int { ty, second, segment, extra } => {
                 let t = INT_TYPES[*ty as usize % 10];
-                let target = if *second { format!("/q/{t}/first/{segment}") } else { format!("/p/{t}/{segment}") };
+                // `/r/…`: the handler takes one parameter, the route captures two — it gets the first ("the segment at its position")
+                let target = if *second { format!("/q/{t}/first/{segment}") } else if *extra { format!("/r/{t}/{segment}/77") } else { format!("/p/{t}/{segment}") };
+                if *extra && !*second {
+                    obs.label("handler-takes-fewer-params-than-the-route-captures")
+                }
                 let o = match run("GET", &target, &host, None) {
                     Ok(o) => o,
                     Err(e) => {
@@ -407,9 +432,12 @@ impl Property for C07 {
                     }
                 }
             }
-            Case::Str { kind, second, segment } => {
+            Case::Str { kind, second, segment, extra } => {
                 let name = ["string", "cow", "str"][*kind as usize % 3];
-                let target = if *second { format!("/q/{name}/first/{segment}") } else { format!("/p/{name}/{segment}") };
+                let target = if *second { format!("/q/{name}/first/{segment}") } else if *extra { format!("/r/{name}/{segment}/other") } else { format!("/p/{name}/{segment}") };
+                if *extra && !*second {
+                    obs.label("handler-takes-fewer-params-than-the-route-captures")
+                }
                 let o = match run("GET", &target, &host, None) {
                     Ok(o) => o,
                     Err(e) => {
